@@ -213,6 +213,21 @@ def check_text_renderer(m, which, doc, fails):
                 if line.strip():
                     need.append((kind, line.strip()))
     miss = find_in_order(out, need)
+    if not miss:
+        # the text leaves of an image (its alternative text) are written somewhere as well - in place by the Markdown renderer, in
+        # the substitution definitions at the end by the RST renderer: plain-word alternative texts must occur in the output
+        def alts(ts):
+            for t in ts:
+                if t["type"] == "image":
+                    ch = t.get("children") or []
+                    if ch and all(c["type"] == "text" for c in ch):
+                        yield "".join(c.get("raw", "") for c in ch)
+                elif "children" in t:
+                    yield from alts(t["children"])
+        for alt in alts(toks):
+            if re.fullmatch(r"[A-Za-z0-9 ]+", alt) and alt.strip() and alt.strip() not in out:
+                miss = ("image-alt", alt.strip())
+                break
     if miss:
         f = {"input": doc, "config": which, "kind": "text-renderer-leaf-missing", "detail": list(miss), "html": out[:1500]}
         if which == "rst" and "<linebreak>" in "".join(raw for _k, raw in leaves(toks, which)) \
